@@ -645,6 +645,8 @@ func c14RunMimc(out, tier, config string, seed uint64, only map[string]bool) (ev
 		if in.le {
 			suffix = "le"
 		}
+		// NOTE the package-level Sum below is deliberately the FIRST use of the package in this process (no constructor has run
+		// yet): a lazily initialised table of round constants that Sum forgets to trigger shows here (and in C18's fresh probe)
 		t := newTrace(out, c14TraceName("mimc", in.field, suffix, config), Ev{"property": "C14", "family": "mimc", "field": in.field,
 			"name": in.name, "le": in.le, "eb": f.NBytes, "config": config, "seed": int(seed % (1 << 30)), "cs": c14KeccakChain("seed", rounds)})
 		d := &c14Drv{in: in, f: f, t: t, rng: newRng(seed*7919 + uint64(len(in.name))*31 + uint64(in.name[len(in.name)-1]))}
